@@ -120,6 +120,9 @@ PLANS["C01"] = {
         T("general", "general", (30, 800), ["InvC01"]),
         T("extremes", "extremes", (12, 300), ["InvC01"]),
         EDG("edges", ["InvC01"], ops=["Derived"]),
+        # every conjunction / disjunction of two bounds on the indexed field, in both orders, on content-rich states
+        EDG("edges-bounds", ["InvC01"], ops=["Derived"], rich_states=40, states=(3, 30), reads=(0, 0),
+            event_re=r'^\{"op": "Derived", "c": "a", "q": \[\["where", \["(and|or)", \["un", "[a-z]+", \[120\], \["lit", [^\]]*\]\]\], \["un", "[a-z]+", \[120\], \["lit", [^\]]*\]\]\]\]\]\], "js"'),
     ],
 }
 
@@ -205,6 +208,8 @@ PLANS["C02"] = {
     "stages": [
         T("twins", "twins", (14, 400), ["InvC02"], chunk=4),
         EDG("edges", ["InvC02"], ops=["Derived", "UpdateFunc", "Delete"], states=(25, 0), reads=(20, 250), writes=(6, 60)),
+        EDG("edges-bounds", ["InvC02"], ops=["Derived"], rich_states=40, states=(3, 30), reads=(0, 0), seed_off=5,
+            event_re=r'^\{"op": "Derived", "c": "a", "q": \[\["where", \["(and|or)", \["un", "[a-z]+", \[120\], \["lit", [^\]]*\]\]\], \["un", "[a-z]+", \[120\], \["lit", [^\]]*\]\]\]\]\]\], "js"'),
     ],
 }
 
@@ -223,6 +228,7 @@ PLANS["C11"] = {
     "level": "model_checking",
     "assumptions": L1_ASSUME + ["encode/decode fidelity is observed through the strict alpha: exact Go type, bits, instant and zone offset"],
     "stages": [
+        T("tzwitness", "tzwitness", (1, 1), ["InvC01"], backends="bolt"),
         T("rich", "rich", (60, 2000), ["InvC01", "InvAuditDocs"]),
         T("rich-reopen", "richreopen", (20, 400), ["InvC01", "InvAuditDocs", "InvReopen"], backends="bolt,badger"),
         T("extremes", "extremes", (15, 300), ["InvC01", "InvAuditDocs"]),
@@ -342,3 +348,6 @@ PLANS["C07"] = {
         {"kind": "race", "name": "race", "n": (40, 600), "maxg": 6},
     ],
 }
+
+# model configurations shared by the quick checks (their emission is cached by `vcheck warm`)
+WARM = [EDG("warm", [])]
